@@ -39,6 +39,7 @@ struct IvHarnessT {
 	static constexpr bool has_snapshot = true;
 	InstResult *res = nullptr;
 	int U, copies, M, fresh, n = 0;
+	int off = 0;   // every endpoint (and every query) is shifted by this: negative and mixed-sign universes
 	struct World {
 		alignas(16) unsigned char tree[sizeof(ITree)];
 		alignas(16) unsigned char nodes[sizeof(INode) * MAXNODES];
@@ -46,7 +47,7 @@ struct IvHarnessT {
 	uint32_t in_tree = 0; // bitmask: reference multiset
 	std::vector<std::pair<int, int>> ivs;
 
-	IvHarnessT(int U_, int copies_, int M_, int fresh_) : U(U_), copies(copies_), M(M_), fresh(fresh_) {
+	IvHarnessT(int U_, int copies_, int M_, int fresh_, int off_ = 0) : U(U_), copies(copies_), M(M_), fresh(fresh_), off(off_) {
 		for(int c = 0; c < copies; c++)
 			for(int lo = 0; lo <= U; lo++) for(int hi = lo; hi <= U; hi++) ivs.push_back({lo, hi});
 		n = (int)ivs.size();
@@ -61,7 +62,7 @@ struct IvHarnessT {
 		new(w.tree) ITree;
 		for(int i = 0; i < n; i++) {
 			INode *p = new(&node(i)) INode;
-			p->lo = ivs[i].first; p->hi = ivs[i].second; p->id = i;
+			p->lo = ivs[i].first + off; p->hi = ivs[i].second + off; p->id = i;
 		}
 		in_tree = 0;
 	}
@@ -91,7 +92,7 @@ struct IvHarnessT {
 			if(fresh) { // the caller re-creates the node object before using it again
 				memset(&node(i), 0xA5, sizeof(INode));
 				INode *p = new(&node(i)) INode;
-				p->lo = ivs[i].first; p->hi = ivs[i].second; p->id = i;
+				p->lo = ivs[i].first + off; p->hi = ivs[i].second + off; p->id = i;
 			}
 		}
 		else { tree().insert(&node(i)); in_tree |= 1u << i; }
@@ -99,8 +100,8 @@ struct IvHarnessT {
 	void query(int lb, int ub, bool single) {
 		int seen[MAXNODES] = {0};
 		auto fn = [&](INode *x) { seen[x->id]++; };
-		if(single) tree().for_overlaps(fn, lb);
-		else tree().for_overlaps(fn, lb, ub);
+		if(single) tree().for_overlaps(fn, P(lb + off));
+		else tree().for_overlaps(fn, P(lb + off), P(ub + off));
 		for(int i = 0; i < n; i++) {
 			bool want = (in_tree >> i & 1) && ivs[i].first <= ub && lb <= ivs[i].second;
 			char q[48]; snprintf(q, sizeof q, "q[%d,%d]%s", lb, ub, single ? "(1-arg)" : "");
@@ -139,6 +140,9 @@ static std::vector<Instance> mk(const std::string &tier) {
 	std::vector<Cfg> cfgs = th ? std::vector<Cfg>{{2, 2, 6, 1}, {3, 1, 7, 1}, {3, 2, 5, 1}, {4, 1, 6, 1}, {5, 1, 4, 1}, {1, 3, 7, 1}, {2, 1, 6, 0}, {1, 3, 5, 0}, {1, 2, 4, 0}, {3, 1, 2, 0}}
 	                           : std::vector<Cfg>{{2, 2, 5, 1}, {3, 1, 7, 1}, {4, 1, 4, 1}, {1, 3, 6, 1}, {2, 1, 5, 0}, {1, 2, 4, 0}};   // (U3 with 7 stored: the smallest trees in which an insert rotates three levels below the root)
 	for(auto c : cfgs) v.push_back(mkinst(c.U, c.copies, c.M, c.fresh));
+	// the same trees over negative and mixed-sign endpoints (an absent child must not count as 0 in the aggregate)
+	v.push_back(bfs_instance<IvHarness>("iv-negative-endpoints-U3-c1-M" + std::to_string(th ? 6 : 5), BfsOptions{}, 3, 1, th ? 6 : 5, 1, -20));
+	v.push_back(bfs_instance<IvHarness>("iv-mixed-sign-endpoints-U3-c1-M" + std::to_string(th ? 6 : 5), BfsOptions{}, 3, 1, th ? 6 : 5, 1, -2));
 	v.push_back(bfs_instance<IvHarnessT<MovP>>("iv-movable-endpoint-U3-c1-M" + std::to_string(th ? 5 : 4), BfsOptions{}, 3, 1, th ? 5 : 4, 1));
 	return v;
 }
